@@ -200,80 +200,92 @@ def _octile(a, b):
     return max(dr, dc) + (math.sqrt(2) - 1) * min(dr, dc)
 
 
-def _near_tie(rng, cands, via1, via2, goal):
-    """generator-side helper: a start among `cands` for which the routes through `via1` and `via2` nearly tie"""
-    scored = []
-    for st in cands:
-        d = abs((_octile(st, via1) + _octile(via1, goal)) - (_octile(st, via2) + _octile(via2, goal)))
-        if d > 1e-9:
-            scored.append((d, st))
-    scored.sort()
-    return list(rng.choice(scored[:6])[1]) if scored else list(cands[0])
+def _near_tie_wall(rng):
+    """generator-side helper: a wall in column c with two gaps, start left of it, goal beyond it close to the
+    second gap, such that the route through the FAR gap is the optimum but only by a hair (the lattice of
+    differences a + b*sqrt2 is sparse: 0.0122, 0.0172, 0.0294, ...), less than a thousandth of the difference
+    of the two gaps' heuristic values: an implementation whose heuristic over-estimates by 0.1% (or whose
+    tie-break ignores g) commits to the near gap and returns a measurably longer path."""
+    for _ in range(300000):
+        R, C = rng.randint(40, 60), rng.randint(40, 60)
+        c = rng.randrange(1, C // 2)
+        g1, g2 = rng.randrange(0, 4), R - 1 - rng.randrange(0, 4)
+        s = (rng.randrange(R), rng.randrange(0, c))
+        t = (R - 1 - rng.randrange(0, 6), C - 1 - rng.randrange(0, 6))
+        far = _octile(s, (g1, c)) + _octile((g1, c), t)
+        near = _octile(s, (g2, c)) + _octile((g2, c), t)
+        d = near - far
+        dh = _octile((g1, c), t) - _octile((g2, c), t)
+        if 1e-9 < d < 0.0008 * dh:
+            g = [[0] * C for _ in range(R)]
+            for r in range(R):
+                g[r][c] = 1
+            g[g1][c] = g[g2][c] = 0
+            return g, list(s), list(t)
+    R = C = 44  # fallback: a known instance
+    g = [[0] * C for _ in range(R)]
+    for r in range(1, R - 1):
+        g[r][2] = 1
+    return g, [12, 0], [43, 43]
 
 
 def gen_big_grid(rng, idx):
     """LARGE structured grids (40..60 per side): long detours whose lengths nearly tie, so that a slightly
     inadmissible heuristic or a wrong tie-break yields a cost measurably above the exact Z[sqrt2] optimum."""
-    R, C = rng.randint(40, 60), rng.randint(40, 60)
-    g = [[0] * C for _ in range(R)]
     fam = idx % 6
-    start, goal = [0, 0], [R - 1, C - 1]
-    if fam == 0:  # vertical wall, gaps at the top and bottom rows
-        c = rng.choice([2, 3, C // 3, C // 2, C - 4])
-        for r in range(1, R - 1):
-            g[r][c] = 1
-        goal = rng.choice([[R - 1, C - 1], [0, C - 1], [R // 2, C - 1], [R - 1, (c + C) // 2]])
-        start = _near_tie(rng, [(r, 0) for r in range(R)], (0, c), (R - 1, c), goal)
-    elif fam == 1:  # horizontal wall, gaps at the left and right columns
-        r = rng.choice([2, 3, R // 3, R // 2, R - 4])
-        for c in range(1, C - 1):
-            g[r][c] = 1
-        goal = rng.choice([[R - 1, C - 1], [R - 1, 0], [R - 1, C // 2], [(r + R) // 2, C - 1]])
-        start = _near_tie(rng, [(0, c) for c in range(C)], (r, 0), (r, C - 1), goal)
-    elif fam == 2:  # serpentine corridors
-        step = rng.choice([3, 4, 6])
-        for k, r in enumerate(range(step, R - 1, step)):
-            for c in range(C):
-                g[r][c] = 1
-            gap = 0 if k % 2 else C - 1
-            g[r][gap] = 0
-            if rng.random() < 0.5:
-                g[r][C // 2] = 0  # a second gap: two routes
-        start, goal = [0, rng.choice([0, C // 2, C - 1])], [R - 1, rng.choice([0, C // 2, C - 1])]
-    elif fam == 3:  # open field: corners, mid-edges, near-diagonal
-        start, goal = rng.choice([([0, 0], [R - 1, C - 1]), ([R // 2, 0], [R // 2 + 3, C - 1]), ([0, C // 2], [R - 1, C // 2 - 5]),
-                                  ([R - 1, 0], [0, C - 2]), ([3, 1], [R - 2, C - 4])])
-        for _ in range(rng.randint(0, 30)):
-            g[rng.randrange(R)][rng.randrange(C)] = 1
-        g[start[0]][start[1]] = g[goal[0]][goal[1]] = 0
-    elif fam == 4:  # two vertical walls with gaps at opposite ends
-        c1, c2 = C // 3, 2 * C // 3
-        for r in range(R):
-            g[r][c1] = 1
-            g[r][c2] = 1
-        g[0][c1] = g[R - 1][c1] = 0
-        g[0][c2] = g[R - 1][c2] = 0
-        if rng.random() < 0.5:
-            g[R - 1][c2] = 1
-        start = _near_tie(rng, [(r, 0) for r in range(R)], (0, c1), (R - 1, c1), (R // 2, c1 + 2))
-        goal = [rng.choice([0, R // 2, R - 1]), C - 1]
-    else:  # a diagonal barrier with gaps at both ends, terrain on one side
-        for k in range(2, min(R, C) - 2):
-            g[k][min(C - 1, k)] = 1
-            if k + 1 < C:
-                g[k][k + 1] = 1
-        start, goal = [R - 1, 0], [0, C - 1]
-        if rng.random() < 0.5:
-            start, goal = [R // 2, 0], [R // 2, C - 1]
     costs = None
-    if fam == 5 and rng.random() < 0.5:
-        for r in range(R):
-            for c in range(C):
-                if g[r][c] == 0 and c > r + 3 and rng.random() < 0.2:
-                    g[r][c] = 2
-        costs = {"2": [3, 2]}
+    dirs, heur = (8 if rng.random() < 0.8 else 4), rng.choice(HEURS)
+    if fam in (0, 1, 2):  # near-tie wall with two gaps: as built / transposed / upside down
+        g, start, goal = _near_tie_wall(rng)
+        if fam == 1:
+            g = [list(col) for col in zip(*g)]
+            start, goal = start[::-1], goal[::-1]
+        elif fam == 2:
+            g = g[::-1]
+            start, goal = [len(g) - 1 - start[0], start[1]], [len(g) - 1 - goal[0], goal[1]]
+        dirs, heur = 8, rng.choice(["auto", "octile", "auto", "euclidean"])
+    else:
+        R, C = rng.randint(40, 60), rng.randint(40, 60)
+        g = [[0] * C for _ in range(R)]
+        start, goal = [0, 0], [R - 1, C - 1]
+        if fam == 3:  # serpentine corridors
+            step = rng.choice([3, 4, 6])
+            for k, r in enumerate(range(step, R - 1, step)):
+                for c in range(C):
+                    g[r][c] = 1
+                g[r][0 if k % 2 else C - 1] = 0
+                if rng.random() < 0.5:
+                    g[r][C // 2] = 0  # a second gap: two routes
+            start, goal = [0, rng.choice([0, C // 2, C - 1])], [R - 1, rng.choice([0, C // 2, C - 1])]
+        elif fam == 4:  # open field with a few obstacles: corners, mid-edges, near-diagonal
+            start, goal = rng.choice([([0, 0], [R - 1, C - 1]), ([R // 2, 0], [R // 2 + 3, C - 1]),
+                                      ([0, C // 2], [R - 1, C // 2 - 5]), ([R - 1, 0], [0, C - 2]), ([3, 1], [R - 2, C - 4])])
+            for _ in range(rng.randint(0, 30)):
+                g[rng.randrange(R)][rng.randrange(C)] = 1
+            g[start[0]][start[1]] = g[goal[0]][goal[1]] = 0
+        else:  # two walls with gaps at opposite ends, or a diagonal barrier with terrain on one side
+            if rng.random() < 0.5:
+                c1, c2 = C // 3, 2 * C // 3
+                for r in range(R):
+                    g[r][c1] = g[r][c2] = 1
+                g[0][c1] = g[R - 1][c1] = g[0][c2] = 0
+                if rng.random() < 0.5:
+                    g[R - 1][c2] = 0
+                start, goal = [rng.randrange(R), 0], [rng.choice([0, R // 2, R - 1]), C - 1]
+            else:
+                for k in range(2, min(R, C) - 2):
+                    g[k][k] = 1
+                    if k + 1 < C:
+                        g[k][k + 1] = 1
+                start, goal = rng.choice([([R - 1, 0], [0, C - 1]), ([R // 2, 0], [R // 2, C - 1])])
+                if rng.random() < 0.5:
+                    for r in range(R):
+                        for c in range(C):
+                            if g[r][c] == 0 and c > r + 3 and rng.random() < 0.2:
+                                g[r][c] = 2
+                    costs = {"2": [3, 2]}
     return {"kind": "grid", "grid": g, "start": list(start), "goal": list(goal),
-            "directions": 8 if rng.random() < 0.8 else 4, "heuristic": rng.choice(HEURS), "blocked": 1, "costs": costs,
+            "directions": dirs, "heuristic": heur, "blocked": 1, "costs": costs,
             "weight": [1, 1], "max_iter": None, "big": fam}
 
 
@@ -928,7 +940,32 @@ def judge_grid(ctx, case, out, reply):
 # driver
 # ---------------------------------------------------------------------------
 
-def run_cases(ctx, cases):
+class Collector:
+    """Stands in for the run context while a case is judged: histogram / coverage calls go to the real context (if
+    any), failed clauses are collected so that the failing case can be shrunk before it is reported."""
+
+    def __init__(self, ctx=None):
+        self.ctx, self.fails = ctx, []
+
+    def count(self, *a, **k):
+        if self.ctx is not None:
+            self.ctx.count(*a, **k)
+
+    def case(self, *a, **k):
+        if self.ctx is not None:
+            self.ctx.case(*a, **k)
+
+    def tdiv(self, *a, **k):
+        if self.ctx is not None:
+            self.ctx.tdiv(*a, **k)
+
+    def fail(self, fn, klass, what, rep):
+        self.fails.append((fn, klass, what, rep))
+
+
+def evaluate(cases, ctx=None):
+    """Run implementation and model on `cases`; returns, per case, the list of failed clauses
+    `(function, class, what, replay_body)`."""
     outs = run_pool(impl, cases, timeout=30.0)
     reqs, keyss = [], []
     for c, o in zip(cases, outs):
@@ -940,18 +977,163 @@ def run_cases(ctx, cases):
         reqs.append(rq)
         keyss.append(ks)
     replies = Driver("Path").run(reqs, chunks=12)
+    res = []
     for c, o, rp, ks in zip(cases, outs, replies, keyss):
         if isinstance(rp, list) and rp and rp[0] == "error":
             raise Infra(f"model rejected request: {rp} for {c}")
+        col = Collector(ctx)
         if o[0] != "ok":
             fn = "astar_grid" if c["kind"] == "grid" else "graph_solvers"
-            ctx.fail(fn, "raises:" + err_kind(o), f"valid input raised/timed out in the worker: {o[1]}",
+            col.fail(fn, "raises:" + err_kind(o), f"valid input raised/timed out in the worker: {o[1]}",
                      {"case": c, "impl": o, "model": rp})
-            continue
-        if c["kind"] == "graph":
-            judge_graph(ctx, c, o[1], rp, ks)
+        elif c["kind"] == "graph":
+            judge_graph(col, c, o[1], rp, ks)
         else:
-            judge_grid(ctx, c, o[1], rp)
+            judge_grid(col, c, o[1], rp)
+        res.append(col.fails)
+    return res
+
+
+# ---------------------------------------------------------------------------
+# replay shrinker (structural; a candidate is kept only if the SAME clause of the SAME function still fails)
+# ---------------------------------------------------------------------------
+
+SHRINK_SECONDS = 20.0
+SHRINK_MAX_PER_RUN = 2
+
+
+def _graph_candidates(c):
+    out = []
+    n, E = c["n"], c["edges"]
+
+    def mk(**kw):
+        d = {**c, **kw}
+        hv = d["h"]["vals"]
+        ok = all(x >= 0 for x in hv) and all(hv[u] <= w + hv[v] for u, v, w in d["edges"]) \
+            and all(hv[t] == 0 for t in d["goal"]["set"])
+        if d["h"]["kind"] != "bad" and not ok:  # the candidate broke consistency: astar is then held to validity only
+            d["h"] = {**d["h"], "kind": "bad"}
+        out.append(d)
+
+    # fewer nodes: drop the last node if nothing refers to it
+    last = n - 1
+    if n > 1 and last != c["s"] and last not in c["goal"]["set"] and c["bf_target"] != last \
+            and all(u != last and v != last for u, v, _ in E):
+        mk(n=n - 1, h={**c["h"], "vals": c["h"]["vals"][:n - 1]})
+    # halves of the edge list, then single edges
+    if len(E) > 3:
+        mk(edges=E[:len(E) // 2])
+        mk(edges=E[len(E) // 2:])
+    for k in range(len(E)):
+        mk(edges=E[:k] + E[k + 1:])
+    # options towards their defaults
+    if c["max_iter"] is not None:
+        mk(max_iter=None)
+    if c["max_cost"] is not None:
+        mk(max_cost=None)
+    if c["aw"] != [1, 1]:
+        mk(aw=[1, 1])
+    if any(c["h"]["vals"]):
+        mk(h={"kind": "zero", "vals": [0] * n})
+    if c["labels"] != "int":
+        mk(labels="int")
+    if c["bf_target"] is not None:
+        mk(bf_target=None)
+    if not c["fw_directed"]:
+        mk(fw_directed=True)
+    if c["goal"]["mode"] == "pred" and len(c["goal"]["set"]) > 1:
+        for t in c["goal"]["set"]:
+            mk(goal={"mode": "pred", "set": [t]})
+    # weights towards 0 / one unit
+    sc = c["scale"]
+    for k, (u, v, w) in enumerate(E):
+        for w2 in (0, sc if w > 0 else -sc):
+            if abs(w2) < abs(w):
+                mk(edges=E[:k] + [[u, v, w2]] + E[k + 1:])
+    if sc != 1 and all(w % sc == 0 for _, _, w in E) and (c["max_cost"] is None or c["max_cost"] % sc == 0) \
+            and all(x % sc == 0 for x in c["h"]["vals"]):
+        mk(scale=1, edges=[[u, v, w // sc] for u, v, w in E], max_cost=None if c["max_cost"] is None else c["max_cost"] // sc,
+           h={**c["h"], "vals": [x // sc for x in c["h"]["vals"]]})
+    return out
+
+
+def _grid_candidates(c):
+    out = []
+    g = c["grid"]
+    R, C = len(g), len(g[0]) if g else 0
+    (sr, sc_), (gr, gc) = c["start"], c["goal"]
+
+    def crop(top, bottom, left, right):
+        r0, r1, c0, c1 = top, R - bottom, left, C - right
+        if r0 <= min(sr, gr) and max(sr, gr) < r1 and c0 <= min(sc_, gc) and max(sc_, gc) < c1 and r1 - r0 >= 1 and c1 - c0 >= 1:
+            d = {**c, "grid": [row[c0:c1] for row in g[r0:r1]], "start": [sr - r0, sc_ - c0], "goal": [gr - r0, gc - c0]}
+            d.pop("big", None)
+            out.append(d)
+
+    for k in sorted({R // 2, R // 4, 3, 1}, reverse=True):
+        if k >= 1:
+            crop(k, 0, 0, 0)
+            crop(0, k, 0, 0)
+    for k in sorted({C // 2, C // 4, 3, 1}, reverse=True):
+        if k >= 1:
+            crop(0, 0, k, 0)
+            crop(0, 0, 0, k)
+    if c["costs"] is not None:
+        out.append({**c, "costs": None})
+    if c["max_iter"] is not None:
+        out.append({**c, "max_iter": None})
+    if c["weight"] != [1, 1]:
+        out.append({**c, "weight": [1, 1]})
+    cells = [(r, k) for r in range(R) for k in range(C) if g[r][k] != 0 and [r, k] != c["start"] and [r, k] != c["goal"]]
+    if len(cells) > 1:  # clear whole rows / columns of obstacles first, then single cells
+        for r in sorted({r for r, _ in cells})[:12]:
+            out.append({**c, "grid": [[0] * C if i == r else row for i, row in enumerate(g)]})
+    for r, k in cells[:40]:
+        out.append({**c, "grid": [[(0 if (i, j2) == (r, k) else x) for j2, x in enumerate(row)] for i, row in enumerate(g)]})
+    return out
+
+
+def shrink_case(case, fn, klass, deadline):
+    """Greedy delta-debugging over the generator's structure.  Returns (smaller case, its failure record, steps)."""
+    import time
+    cur, cur_rec, steps = case, None, 0
+    while time.time() < deadline:
+        cands = (_graph_candidates if cur["kind"] == "graph" else _grid_candidates)(cur)
+        if not cands:
+            break
+        found = None
+        for k in range(0, len(cands), 48):
+            batch = cands[k:k + 48]
+            try:
+                results = evaluate(batch)
+            except Infra:
+                results = [[] for _ in batch]  # a candidate outside the model's domain: not a smaller witness
+            for cand, fails in zip(batch, results):
+                hit = [f for f in fails if f[0] == fn and f[1] == klass]
+                if hit:
+                    found = (cand, hit[0])
+                    break
+            if found or time.time() > deadline:
+                break
+        if not found:
+            break
+        cur, cur_rec = found
+        steps += 1
+    return cur, cur_rec, steps
+
+
+def run_cases(ctx, cases, shrink=True):
+    import time
+    for c, fails in zip(cases, evaluate(cases, ctx)):
+        for fn, klass, what, rep in fails:
+            if shrink and ctx.known_match(fn, klass) is None and getattr(ctx, "_c11_shrunk", 0) < SHRINK_MAX_PER_RUN \
+                    and len(ctx.violations) < 20:
+                ctx._c11_shrunk = getattr(ctx, "_c11_shrunk", 0) + 1
+                small, rec, steps = shrink_case(c, fn, klass, time.time() + SHRINK_SECONDS)
+                if rec is not None:
+                    what, rep = rec[2], {**rec[3], "original_case": c, "shrink_steps": steps}
+                    ctx.count("shrunk_replays")
+            ctx.fail(fn, klass, what, rep)
 
 
 def malformed(_):
@@ -1003,4 +1185,4 @@ def run(ctx, budget):
 
 def replay(ctx, body):
     ctx.cov["rule"] = RULE
-    run_cases(ctx, [body["case"]])
+    run_cases(ctx, [body["case"]], shrink=False)
